@@ -51,6 +51,10 @@ HOLDING_HARNESSES = [
     holding("holding-1", {"maxheld": 1}, {"maxheld": 1}),
     holding("holding-2", {"maxheld": 2, "fixrates": 1}, {"maxheld": 2}),
 ]
+MULTIFETCH = {"id": "multifetch", "func": "VerifMultiFetch", "pkg": NODE, "pkgname": "node", "load": ["./node"],
+             "params": {"quick": {"maxentries": 3}, "thorough": {"maxentries": 4}},
+             "must_cover": ["all-fetched", "entry-request-failed", "eblock-request-failed"], "max_witness_replays": 4,
+             "replay_mode": "order", "native_repeat": 40}
 HOLDING_BOUNDS = "holding pass (SyncBank + ApplyTransactionBatchesInHolding + recordPegnetRequests) at one executing height per era (bank-limited per arrival height / V4 pooled bank / 2.0 / PIP-10), 1-2 blocks without rates before it, 1 held conversion (pUSD->pXBT or pUSD->PEG; amounts, balances, rates of both blocks symbolic) or 2 held conversions at rates 1:1, arrival heights inside and just outside the window"
 HOLDING_ASSUMPTIONS = [
     "held batches are single conversions put into holding by the real ApplyTransactionBlock in earlier committed blocks; multi-transaction batches with a PEG request in the bank era (known legacy findings D8/D15, DESIGN §8) are outside this harness",
@@ -100,7 +104,7 @@ PROPS = {
         "harnesses": [
             {"id": "history-queries", "func": "VerifHistory", "pkg": PEG, "pkgname": "pegnet", "load": ["./node/pegnet"],
              "params": {"quick": {}, "thorough": {}}, "must_cover": ["some-actions", "no-actions"], "max_witness_replays": 8},
-        ] + TXBLOCK_HARNESSES[:1] + HOLDING_HARNESSES[:1] + BATCH_HARNESSES[:1] + [
+        ] + TXBLOCK_HARNESSES[:1] + HOLDING_HARNESSES[:1] + BATCH_HARNESSES[:1] + [BATCH_HARNESSES[3]] + [
             {"id": "rewards", "func": "VerifRewards", "pkg": NODE, "pkgname": "node", "load": ["./node"],
              "params": {"quick": {"maxwinners": 2}, "thorough": {"maxwinners": 3}}, "must_cover": ["winners"], "max_witness_replays": 2},
             {"id": "scheduled", "func": "VerifScheduled", "pkg": NODE, "pkgname": "node", "load": ["./node"],
@@ -191,6 +195,8 @@ PROPS = {
             {"id": "syncloop-fault", "func": "VerifSyncLoop", "pkg": NODE, "pkgname": "node", "load": ["./node"],
              "params": {"quick": {"mode": 1}, "thorough": {"mode": 1}},
              "must_cover": ["completed", "dev-payout-at-2nd-block", "old-burn-zeroing", "v204-mint"], "max_witness_replays": 4},
+            dict(txblock("txblock-fault", {"maxentries": 1, "kindset": 1, "fault": 1}, {"maxentries": 1, "kindset": 0, "fault": 1}),
+                 must_cover=["fault-failed-block"]),
         ] + BATCH_HARNESSES[:1],
         "wall": {"quick": 400, "thorough": 3000},
         "bounds": {"quick": "the real DBlockSync/SyncBlock loop over 2 blocks in 7 scenarios (developer payout block, both burn-address zeroings, 2.0.4 mint and its burn, a holder-snapshot height, plain heights) with Factom requests stubbed to blocks without tracked entries; crash oracle: the process is killed at EVERY DB-API call of the run (28..509 call sites per scenario), a new process resumes; fault oracle: every DB-API call fails once and the loop goes on (in-memory height == committed height, one version row per height, no gap); plus the handle-discipline monitor (no write outside the block transaction) in the batch harness",
@@ -209,10 +215,12 @@ PROPS = {
                  must_cover=["fault-failed-block"]),
             dict(holding("holding-fault", {"maxheld": 1, "fault": 1, "fixrates": 1}, {"maxheld": 1, "fault": 1}),
                  must_cover=["fault-failed-block", "fault-ended-process"]),
+            MULTIFETCH,
         ],
         "wall": {"quick": 400, "thorough": 3000},
         "bounds": {"quick": "as C02's loop harness with the fault oracle: EVERY single DB-API call of the run fails once (error, no effect), or one of the first 8 upstream Factom requests fails once; the loop's own retry then completes the sync; plus the per-block units with content: ApplyTransactionBlock over 1 entry of every kind and the holding pass (SyncBank + ApplyTransactionBatchesInHolding) over 1 held conversion, each with EVERY single DB-API call of the unit failing once, compared against the same symbolic scenario run without a fault (a unit that reports success must have left exactly the fault-free store)", "thorough": "same, all entry kinds / symbolic rates"},
-        "assumptions": ["single transient fault per run; faults inside multiFetch's goroutines are not modelled (blocks have no entries here); a failed COMMIT leaves nothing applied (go-sqlite3 rolls back)",
+        "assumptions": ["single transient fault per run; a failed COMMIT leaves nothing applied (go-sqlite3 rolls back)",
+                        "multiFetch: goroutines and channels are sequentialised (deterministic scheduling, no preemption between channel operations) with two oracles: a worker may be overtaken while its request is in flight, and any of several waiting workers may deliver first; 1..3 entries, one failing request",
                         "log.Fatal (process exit after an unrecoverable rollback error) counts as 'not committed short'"],
     },
     "C09": {
@@ -266,6 +274,9 @@ PROPS = {
             {"id": "scheduled", "func": "VerifScheduled", "pkg": NODE, "pkgname": "node", "load": ["./node"],
              "params": {"quick": {}, "thorough": {}}, "must_cover": ["dev", "mint", "nullify-mint"], "max_witness_replays": 6},
             SYNCBLOCK,
+            {"id": "syncloop-fault", "func": "VerifSyncLoop", "pkg": NODE, "pkgname": "node", "load": ["./node"],
+             "params": {"quick": {"mode": 1}, "thorough": {"mode": 1}},
+             "must_cover": ["completed", "dev-payout-at-2nd-block", "v204-mint"], "max_witness_replays": 3},
         ],
         "bounds": {"quick": "DevelopersPayouts at the first payout heights >= dev activation and >= 2.0.2 (heights are formatted into mock txids, hence concrete) with symbolic prior balances; MintTokensForBalance and NullifyMintedTokens at their heights with symbolic prior/remaining balances", "thorough": "same"},
         "assumptions": ["address/percentage list and mint list are copied into the harness as specification; the code reads devs.go / mint.go",
@@ -331,7 +342,7 @@ PROPS = {
     },
     "C08": {
         "asserts": ["C08.", "uncaught-panic"],
-        "harnesses": TXBLOCK_HARNESSES + [BATCH_HARNESSES[1], BATCH_HARNESSES[3]] + HOLDING_HARNESSES + [GRADEGLUE, SYNCBLOCK] + [
+        "harnesses": TXBLOCK_HARNESSES + [BATCH_HARNESSES[1], BATCH_HARNESSES[3]] + HOLDING_HARNESSES + [GRADEGLUE, SYNCBLOCK, MULTIFETCH] + [
             {"id": "snapshot-live", "func": "VerifSnapshot", "pkg": NODE, "pkgname": "node", "load": ["./node"],
              "params": {"quick": {"both": 2, "extras": 1, "assets": 1}, "thorough": {"both": 2, "extras": 1, "assets": 2}},
              "must_cover": ["paid"], "max_witness_replays": 2},
